@@ -911,13 +911,158 @@ impl<'a> Render<'a> {
         let body = self.sts(&l.sts);
         // more than one blank after the number is indentation, which listings keep
         let gap = if self.rng.is_some() && self.ch(2) == 1 { "" } else { " " };
-        format!("{}{}{}", self.p.num(l.label), gap, body)
+        let text = format!("{}{}{}", self.p.num(l.label), gap, body);
+        if self.rng.is_some() && self.ch(3) == 0 {
+            return self.crunch(&text);
+        }
+        text
+    }
+
+    /// "Crunched" spelling: single blanks between words are dropped wherever the result still splits
+    /// into the same words by the documented rule (reserved words are recognised inside runs of
+    /// letters). Conservative: a blank goes only if no reserved word other than the intended ones
+    /// occurs anywhere in the joined run of letters. String literals and remarks are left alone.
+    fn crunch(&mut self, text: &str) -> String {
+        let c: Vec<char> = text.chars().collect();
+        let mut out: Vec<char> = Vec::with_capacity(c.len());
+        let mut in_str = false;
+        let mut i = 0;
+        let is_an = |ch: char| ch.is_ascii_alphanumeric();
+        while i < c.len() {
+            let ch = c[i];
+            if ch == '"' {
+                in_str = !in_str;
+            }
+            if !in_str {
+                // a remark: the rest is text
+                let rest: String = c[i..].iter().take(4).collect::<String>().to_ascii_uppercase();
+                let at_word = out.last().map(|p| !p.is_ascii_alphabetic()).unwrap_or(true);
+                if ch == '\'' || (at_word && rest.starts_with("REM") && !rest.chars().nth(3).map(|x| x.is_ascii_alphanumeric()).unwrap_or(false)) {
+                    out.extend_from_slice(&c[i..]);
+                    break;
+                }
+            }
+            if !in_str && ch == ' ' && i > 0 && i + 1 < c.len() && c[i - 1] != ' ' && c[i + 1] != ' ' && self.ch(2) == 0 {
+                let (l, r) = (c[i - 1], c[i + 1]);
+                let ok = if is_an(l) && is_an(r) {
+                    let mut a = i;
+                    while a > 0 && is_an(c[a - 1]) {
+                        a -= 1;
+                    }
+                    let mut b = i + 1;
+                    while b < c.len() && is_an(c[b]) {
+                        b += 1;
+                    }
+                    // a run that continues behind a decimal point or type suffix is not judged here
+                    let bounded = (a == 0 || !matches!(c[a - 1], '.' | '$' | '%' | '!' | '#' | '&'))
+                        && (b >= c.len() || !matches!(c[b], '.'));
+                    let lrun: String = c[a..i].iter().collect::<String>().to_ascii_uppercase();
+                    let rrun: String = c[i + 1..b].iter().collect::<String>().to_ascii_uppercase();
+                    bounded && glue_ok(&lrun, &rrun)
+                } else {
+                    // punctuation on one side: the words cannot merge; keep apart what forms other operators
+                    !matches!((l, r), ('<', '=') | ('<', '>') | ('>', '=') | ('=', '<') | ('=', '>') | ('>', '<'))
+                        && !(l.is_ascii_digit() && r == '.')
+                        && !(l == '.' && r.is_ascii_digit())
+                        && !(matches!(l, 'E' | 'D' | 'e' | 'd') && matches!(r, '+' | '-') && i >= 2 && c[i - 2].is_ascii_digit())
+                        && l != '&'
+                };
+                if ok {
+                    i += 1;
+                    continue;
+                }
+            }
+            out.push(ch);
+            i += 1;
+        }
+        out.into_iter().collect()
     }
 
     pub fn lines(&mut self) -> Vec<String> {
         let p = self.p;
         p.lines.iter().map(|l| self.line(l)).collect()
     }
+}
+
+pub const RESERVED: [&str; 49] = [
+    "RESTORE", "DEFDBL", "DEFINT", "DEFSNG", "DEFSTR", "DELETE", "RETURN", "CLEAR", "ERASE", "GOSUB", "INPUT", "PRINT",
+    "RENUM", "TROFF", "WHILE", "CONT", "DATA", "ELSE", "GOTO", "NEXT", "LIST", "LOAD", "READ", "SAVE", "STEP", "STOP", "SWAP",
+    "THEN", "TRON", "WEND", "AND", "CLS", "DEF", "DIM", "END", "EQV", "FOR", "IMP", "LET", "MOD", "NEW", "NOT", "REM", "RUN",
+    "XOR", "IF", "ON", "OR", "TO",
+];
+
+/// All (position, word) occurrences of reserved words in a run of letters.
+fn occurrences(letters: &str) -> Vec<(usize, &'static str)> {
+    let mut v = vec![];
+    for w in RESERVED.iter() {
+        let mut from = 0;
+        while let Some(i) = letters[from..].find(w) {
+            v.push((from + i, *w));
+            from += i + 1;
+        }
+    }
+    v.sort();
+    v
+}
+
+/// May the blank between two alphanumeric runs be dropped? (both upper case)
+fn glue_ok(l: &str, r: &str) -> bool {
+    let digits = |s: &str| !s.is_empty() && s.chars().all(|c| c.is_ascii_digit());
+    let letters_of = |s: &str| -> String { s.chars().take_while(|c| c.is_ascii_alphabetic()).collect() };
+    let letters_only = |s: &str| !s.is_empty() && s.chars().all(|c| c.is_ascii_alphabetic());
+    if digits(l) && digits(r) {
+        return false;
+    }
+    if digits(l) {
+        // 1TO, 3THEN, 1ELSE, 7MOD3: a reserved word must start the right run (an identifier would
+        // be read as an exponent letter or merge), and the run must be nothing but that word
+        let rl = letters_of(r);
+        if rl.len() != r.len() && !r[rl.len()..].chars().all(|c| c.is_ascii_digit()) {
+            return false;
+        }
+        let occ = occurrences(&rl);
+        return occ.len() == 1 && occ[0].0 == 0 && occ[0].1.len() == rl.len() && rl.len() == r.len();
+    }
+    if !l.chars().next().map(|c| c.is_ascii_alphabetic()).unwrap_or(false) {
+        return false;
+    }
+    if !letters_only(l) {
+        // X1, W2: an identifier ends at the first letter after its digits
+        let ll = letters_of(l);
+        return l[ll.len()..].chars().all(|c| c.is_ascii_digit())
+            && occurrences(&ll).is_empty()
+            && r.chars().next().map(|c| c.is_ascii_alphabetic()).unwrap_or(false);
+    }
+    // left run is letters only
+    let locc = occurrences(l);
+    let l_is_word = locc.len() == 1 && locc[0].0 == 0 && locc[0].1.len() == l.len();
+    if !(l_is_word || locc.is_empty()) {
+        return false;
+    }
+    if digits(r) {
+        // THEN10, GOTO10, TO5, MOD3 -- but A 1 would become the identifier A1
+        return l_is_word;
+    }
+    let rl = letters_of(r);
+    if rl.is_empty() {
+        return false;
+    }
+    let rocc = occurrences(&rl);
+    let r_is_word = rocc.len() == 1 && rocc[0].0 == 0 && rocc[0].1.len() == rl.len() && rl.len() == r.len();
+    if !(r_is_word || rocc.is_empty()) {
+        return false;
+    }
+    if !l_is_word && !r_is_word {
+        // two identifiers would merge
+        return false;
+    }
+    let joined = format!("{}{}", l, rl);
+    let mut want: Vec<(usize, &'static str)> = locc.clone();
+    for (i, w) in &rocc {
+        want.push((i + l.len(), *w));
+    }
+    want.sort();
+    occurrences(&joined) == want
 }
 
 fn level(op: &str) -> u8 {
